@@ -2,10 +2,10 @@
 # tools/import_seed.sh <prop> <n> [<new-n>] : copy /tmp/seed-<prop>/_seed/<n>/ to seeded/<prop>-<new-n>/
 P="$1"; N="$2"; M="${3:-$2}"
 cd "$(dirname "$0")/.."
-S=/tmp/seed-$P/_seed/$N; D=seeded/$P-$M
+S=${SEEDROOT:-/tmp/seed}-$P/_seed/$N; D=seeded/$P-$M
 [ -d "$S" ] || { echo "no $S"; exit 1; }
 mkdir -p $D; cp $S/patch.diff $S/meta.json $D/; cp $S/demo*.py $D/ 2>/dev/null
 # demos assert that qkeras is imported from the seeding agent's worktree; the sweep runs them from
 # another scratch worktree under /tmp, so accept any /tmp/ root
-sed -i "s#/tmp/seed-$P#/tmp/#g" $D/demo*.py 2>/dev/null
+sed -i "s#${SEEDROOT:-/tmp/seed}-$P#/tmp/#g" $D/demo*.py 2>/dev/null
 ls $D | tr '\n' ' '; echo
